@@ -2398,16 +2398,28 @@ class op(object):
             len(equalities) <= 1:
             v = variables[0]
 
-            if lin_ineqs: G = lin_ineqs[0]._f._linear._coeff[v]
+            # The coefficients and right-hand sides must have full size
+            # (a scalar coefficient a stands for a*I, a scalar constant 
+            # for a constant vector; they are expanded below).
+            fullsize = True
+            if lin_ineqs: 
+                G = lin_ineqs[0]._f._linear._coeff.get(v)
+                fullsize = G is not None and \
+                    G.size == (len(lin_ineqs[0]), len(v)) and \
+                    len(lin_ineqs[0]._f._constant) == len(lin_ineqs[0])
             else: G = None
 
-            if equalities: A = equalities[0]._f._linear._coeff[v]
+            if equalities: 
+                A = equalities[0]._f._linear._coeff.get(v)
+                fullsize = fullsize and A is not None and \
+                    A.size == (len(equalities[0]), len(v)) and \
+                    len(equalities[0]._f._constant) == len(equalities[0])
             else: A = None
 
-            if (format == 'dense' and (G is None or _isdmatrix(G)) and 
-                (A is None or _isdmatrix(A))) or \
+            if fullsize and ((format == 'dense' and (G is None or 
+                _isdmatrix(G)) and (A is None or _isdmatrix(A))) or \
                 (format == 'sparse' and (G is None or _isspmatrix(G)) 
-                and (A is None or _isspmatrix(A))):  
+                and (A is None or _isspmatrix(A)))):  
                 return None
 
 
@@ -2623,12 +2635,18 @@ class op(object):
         inequalities = lp1._inequalities
         if not inequalities:
             raise TypeError('lp must have at least one inequality')
-        G = inequalities[0]._f._linear._coeff[x]
+        if x in inequalities[0]._f._linear._coeff:
+            G = inequalities[0]._f._linear._coeff[x]
+        else:
+            G = matrix(0.0, (len(inequalities[0]),len(x)))
         h = -inequalities[0]._f._constant
 
         equalities = lp1._equalities
         if equalities:
-            A = equalities[0]._f._linear._coeff[x]
+            if x in equalities[0]._f._linear._coeff:
+                A = equalities[0]._f._linear._coeff[x]
+            else:
+                A = matrix(0.0, (len(equalities[0]),len(x)))
             b = -equalities[0]._f._constant
         elif format == 'dense':
             A = matrix(0.0, (0,len(x)))
